@@ -309,6 +309,8 @@ class HasherHybrid(CbMixin, ProgMixin):
         the progress mode
     progress_bar: [Optional] ProgressBar
         a progress bar object if progress mode is 2
+    padding: bool
+        zero-extend the last v1 piece to a full piece (multi-file torrents)
     """
 
     def __init__(
@@ -317,6 +319,7 @@ class HasherHybrid(CbMixin, ProgMixin):
         piece_length: int,
         progress: int = 1,
         progress_bar=None,
+        padding: bool = True,
     ):
         """
         Construct Hasher class instances for each file in torrent.
@@ -329,6 +332,7 @@ class HasherHybrid(CbMixin, ProgMixin):
         self.root = None
         self.padding_piece = None
         self.padding_file = None
+        self.padding = padding
         self.amount = piece_length // BLOCK_SIZE
         self.progress = progress
         self.progbar = progress_bar
@@ -391,7 +395,7 @@ class HasherHybrid(CbMixin, ProgMixin):
             layer_hash = merkle_root(blocks)
             self.cb(layer_hash)
             self.layer_hashes.append(layer_hash)
-            if plength > 0:
+            if plength > 0 and self.padding:
                 self.padding_file = {
                     "attr": "p",
                     "length": plength,
@@ -441,6 +445,8 @@ class FileHasher(CbMixin, ProgMixin):
         the progress mode
     progress_bar: [Optional] ProgressBar
         a progress bar object if progress mode is 2
+    padding: bool
+        zero-extend the last v1 piece to a full piece (multi-file torrents)
     """
 
     def __init__(
@@ -450,6 +456,7 @@ class FileHasher(CbMixin, ProgMixin):
         progress: int = 1,
         hybrid: bool = False,
         progress_bar=None,
+        padding: bool = True,
     ):
         """
         Construct Hasher class instances for each file in torrent.
@@ -462,6 +469,7 @@ class FileHasher(CbMixin, ProgMixin):
         self.root = None
         self.padding_piece = None
         self.padding_file = None
+        self.padding = padding
         self.amount = piece_length // BLOCK_SIZE
         self.end = False
         self.progress = progress
@@ -544,7 +552,7 @@ class FileHasher(CbMixin, ProgMixin):
                 self.progbar.close_out()
             self._calculate_root()
         if self.hybrid:
-            if plength > 0:
+            if plength > 0 and self.padding:
                 self.padding_file = {
                     "attr": "p",
                     "length": plength,
